@@ -42,6 +42,7 @@ func init() {
 type schedEvent struct {
 	Ev   string `json:"ev"`
 	NP   []int  `json:"np,omitempty"`
+	T0   []int  `json:"t0,omitempty"`
 	Sim  int    `json:"sim,omitempty"`
 	P    int    `json:"p"`
 	Tick int    `json:"tick"`
@@ -237,7 +238,7 @@ func c09Child(outPath string) int {
 			vms = append(vms, vm)
 			nps = append(nps, len(bm.Processors))
 		}
-		emit(schedEvent{Ev: "run", NP: nps, Note: note + ":" + strings.Join(names, "+")})
+		emit(schedEvent{Ev: "run", NP: nps, T0: make([]int, len(nps)), Note: note + ":" + strings.Join(names, "+")})
 		perturb = true
 		mu.Unlock()
 		var wg sync.WaitGroup
@@ -283,8 +284,146 @@ func c09Child(outPath string) int {
 				return 2
 			}
 		}
+		if !runFork(machines, refs, ticks, &mu, simOf, emit, &perturb) {
+			return 2
+		}
+		if !runCalls(&mu, emit) {
+			return 2
+		}
 	}
 	return 0
+}
+
+// runFork steps a simulation for a few ticks, forks it with VM.CopyState into a second VM and
+// then runs the original and the fork concurrently: both must follow the trace of the
+// simulation run alone.
+func runFork(machines []schedMachine, refs map[string][]string, ticks int, mu *sync.Mutex, simOf map[*bondmachine.VM]int, emit func(schedEvent), perturb *bool) bool {
+	for _, name := range []string{"addp2", "pipeline"} {
+		var m schedMachine
+		for _, c := range machines {
+			if c.name == name {
+				m = c
+			}
+		}
+		bm, err := m.build()
+		if err != nil {
+			return false
+		}
+		const forkAt = 3
+		mk := func() *bondmachine.VM {
+			vm := new(bondmachine.VM)
+			vm.Bmach = bm
+			vm.SimDelayMap = simbox.NewSimDelays()
+			if err := vm.Init(); err != nil {
+				return nil
+			}
+			return vm
+		}
+		orig := mk()
+		if orig == nil || orig.Launch_processors(new(simbox.Simbox)) != nil {
+			return false
+		}
+		if err := tickLoop(orig, forkAt, func(int, string) {}); err != nil {
+			return false
+		}
+		fork := mk()
+		if fork == nil || fork.CopyState(orig) != nil || fork.Launch_processors(new(simbox.Simbox)) != nil {
+			return false
+		}
+		mu.Lock()
+		for k := range simOf {
+			delete(simOf, k)
+		}
+		simOf[orig], simOf[fork] = 1, 2
+		np := len(bm.Processors)
+		emit(schedEvent{Ev: "run", NP: []int{np, np}, T0: []int{forkAt, forkAt}, Note: "fork:" + name})
+		*perturb = true
+		mu.Unlock()
+		ref := refs[name]
+		var wg sync.WaitGroup
+		ok := true
+		for i, vm := range []*bondmachine.VM{orig, fork} {
+			wg.Add(1)
+			go func(i int, vm *bondmachine.VM) {
+				defer wg.Done()
+				err := tickLoop(vm, ticks-forkAt, func(t int, d string) {
+					mu.Lock()
+					emit(schedEvent{Ev: "digest", Sim: i + 1, Tick: int(vm.VerifTick()), D: d, Ref: ref[forkAt+t]})
+					mu.Unlock()
+				})
+				if err != nil {
+					ok = false
+				}
+				vm.Stop()
+			}(i, vm)
+		}
+		wg.Wait()
+		mu.Lock()
+		*perturb = false
+		mu.Unlock()
+		if !ok {
+			return false
+		}
+	}
+	return true
+}
+
+// runCalls runs the repository's single-shot entry point from several goroutines at once (the
+// simfinetune pattern), with a dynamically created number type for the first output, and compares
+// every result with the same call made alone.
+func runCalls(mu *sync.Mutex, emit func(schedEvent)) bool {
+	mk := func() *bondmachine.Bondmachine {
+		bm := newBM(8)
+		p, err := mkMachine(8, 2, 0, 2, 0, []string{"inc", "r2o", "r2owa", "j"}, "inc r0\nr2o r0 o0\ninc r0\ninc r0\nr2owa r0 o1\nj 0\n")
+		if err != nil {
+			return nil
+		}
+		addProc(bm, p)
+		bm.Add_output()
+		bm.Add_output()
+		bm.Add_bond([]string{"o0", "p0o0"})
+		bm.Add_bond([]string{"o1", "p0o1"})
+		return bm
+	}
+	types := []string{"fps8f4", "unsigned", "fxps8f4", "hex"}
+	refs := map[string]string{}
+	for _, ty := range types {
+		bm := mk()
+		if bm == nil {
+			return false
+		}
+		res, err := bm.SinglePipelineSimulate(ty, []string{}, nil)
+		if err != nil {
+			return false
+		}
+		refs[ty] = strings.Join(res, ",")
+	}
+	var wg sync.WaitGroup
+	ok := true
+	for g := 0; g < 8; g++ {
+		wg.Add(1)
+		go func(g int) {
+			defer wg.Done()
+			for k := 0; k < 3; k++ {
+				ty := types[(g+k)%len(types)]
+				bm := mk()
+				if bm == nil {
+					ok = false
+					return
+				}
+				res, err := bm.SinglePipelineSimulate(ty, []string{}, nil)
+				d := strings.Join(res, ",")
+				if err != nil {
+					d = "error: " + err.Error()
+				}
+				mu.Lock()
+				emit(schedEvent{Ev: "call", D: d, Ref: refs[ty], Note: "SinglePipelineSimulate:" + ty})
+				mu.Unlock()
+			}
+		}(g)
+	}
+	wg.Wait()
+	return ok
 }
 
 // ---- parent ------------------------------------------------------------------------------------------
@@ -401,6 +540,9 @@ func runC09(r *evid.Run) {
 			start--
 		}
 		note := all[start].Note
+		if all[line-1].Ev == "call" {
+			note = "call:" + all[line-1].Note
+		}
 		kind := note
 		if i := strings.Index(note, ":"); i >= 0 {
 			kind = note[i+1:]
